@@ -17,6 +17,7 @@ import MpsVerif.Drv.Mux
 import MpsVerif.Drv.Pipe
 import MpsVerif.Drv.ProcOutcome
 import MpsVerif.Drv.LogPipe
+import MpsVerif.Drv.Lane
 
 def main (args : List String) : IO UInt32 := do
   match args with
@@ -41,4 +42,5 @@ def main (args : List String) : IO UInt32 := do
   | ["pipe"] => Pipe.Drv.main; return 0
   | ["procoutcome"] => ProcOutcome.Drv.main; return 0
   | ["logpipe"] => LogPipe.Drv.main; return 0
+  | ["lane"] => Lane.Drv.main; return 0
   | _ => IO.eprintln s!"usage: drv <model>   (see lean/Main.lean for the list of models)"; return 2
